@@ -418,6 +418,7 @@ def run(ctx):
 
     # ------------------------------------------------------------- R20.8
     _exact_match(ctx)
+    _independent_tables(ctx)
 
     # ------------------------------------------------------------- R20.7 = R13.2
     ctx.rule("R20.7", "by-name lookups are exact only if the name tables are rebuilt after every load: merge_from resets the freshness word after its last mutation, lookup() refreshes exactly the stale table (= R13.2)")
@@ -676,4 +677,26 @@ def _exact_match(ctx):
                (callee_short(c) == "compare" and len([q for q in c.get("a", []) if q.get("k") != "defarg"]) > 1))]
     ctx.ob("R20.8", "binary_search_wrapper_hash|no-length-limited-comparison", not limited, fn.loc(limited[0]) if limited else fn.loc(),
            "length-limited comparisons in the bisection: %s" % ([show(c)[:50] for c in limited] or "none"))
+
+
+
+
+def _independent_tables(ctx):
+    """R20.9: a module definition carries two optional, independent tables: unique names (-> index offsets) and function
+    pointers.  Looking a wrapper up by name must not depend on the pointer table (a definition may have names and no
+    pointers)."""
+    db = ctx.db
+    ctx.rule("R20.9", "InterrogateModuleDef::fptrs / num_fptrs are read only by get_fptr(); the unique-name lookup (get_wrapper_by_unique_name, binary_search_wrapper_hash) reads only unique_names / num_unique_names / first_index")
+    readers = {}
+    for f in db.functions:
+        if "/interrogatedb/" not in f.file:
+            continue
+        for x in f.walk():
+            if x.get("k") == "mem" and x.get("n") in ("InterrogateModuleDef::fptrs", "InterrogateModuleDef::num_fptrs"):
+                readers.setdefault(f.name, x)
+    ctx.floor("R20.9", "readers of the pointer table", len(readers), 1)
+    for name, x in sorted(readers.items()):
+        ok = name.split("::")[-1] in ("get_fptr",)
+        f = db.fn(name)
+        ctx.ob("R20.9", "%s|reads-fptr-table" % name, ok, f.loc(x), "%s reads %s%s" % (name, x["n"].split("::")[-1], "" if ok else ": a lookup by name or index must not depend on the optional pointer table"))
 
